@@ -4,16 +4,32 @@ listed under not_applicable with a reason)."""
 import json, os, subprocess
 V = os.path.dirname(os.path.dirname(os.path.abspath(__file__)))
 TECH = "TLA+ spec (Stream + transcribed parser) model-checked with TLC; TLC oracle records replayed on the Go code; relational formulas of the spec evaluated on real executions"
+GEN = "TLA+ generator with intended decomposition (ghost) enumerated by TLC; each generated behaviour executed on the Go code and compared on the intended keys"
 CLAIMS = {
- "C02": ("§6 C02", "TLC checks ResumeEqFresh on the Stream spec for every Send/Call interleaving over all atom strings up to a bound (scalar-header, token-param, name-addr ... kinds as transcribed) and every explored state is replayed on the real code (drift 0); on the code itself every atom string up to N per parser family is parsed on every prefix and every (suspended prefix -> longer prefix) pair is resumed and compared with a fresh parse, which by induction covers every chunk schedule.",
-         "bounded: atom alphabets per family, string length <= N atoms, start offsets {0,3}, capacities {0,1,2}; full-state equality at suspensions read by reflection is used only to justify the schedule induction, never as a verdict; sub-parser kinds without a finished TLA+ transcription are covered by the relational exploration only"),
+ "C01": ("§6 C01", "messages are derived exhaustively (bounded) by TLC from the TLA+ generator Gen!GenMsg; the whole-message parser is transcribed (SIPMsg.tla) and model-checked as a Stream instance (ResumeEqFresh over every Send/Call interleaving, oracle records replayed on the code with drift 0); on the code every generated message (+ near-miss mutants) x flag sets x capacity pairs is parsed on every prefix and resumed over all / sampled (p,q) pairs and compared with fresh parses.",
+         "bounded: K<=2 (quick) / 3 (thorough) pool headers per message, messages <= ~300 bytes, capacity pairs and flags rotated; all-pairs only for K=1 (others: q in {p+1,n} + seeded sample, stated in the evidence)"),
+ "C02": ("§6 C02", "TLC checks ResumeEqFresh on the Stream spec for every Send/Call interleaving over all atom strings up to a bound, per transcribed parser kind, and every explored state is replayed on the real code (drift 0); on the code itself every atom string up to N per parser family is parsed on every prefix and every (suspended prefix -> longer prefix) pair is resumed and compared with a fresh parse, which by induction covers every chunk schedule.",
+         "bounded: atom alphabets per family, string length <= N atoms, start offsets {0,3}, capacities {0,1,2}; full-state equality at suspensions (read-only reflection) only justifies the schedule induction, never a verdict"),
  "C03": ("§6 C03", "TLC checks the invariant Stable (a definitive one-shot verdict on a wire equals the verdict on every extension) on prefix-closed atom-string sets; the same relation is evaluated on the real code for every atom string up to N of every parser family (each definitive prefix against the next longer prefix, transitively all extensions).",
          "bounded atom alphabets (incl. SP HT CR LF digits quotes letters); end-of-input modes and the body extent without Content-Length are exempt as the property states"),
  "C04": ("§6 C04", "TLC checks OffsSane (no panic verdict, offset inside the buffer, not before the passed offset unless error) on the model; on the code every call made by the explorations runs under recover and a watchdog, offsets are range-checked and every exported field is dereferenced against an exact-capacity buffer.",
          "bounded inputs; absence of data races under the Go memory model is outside what the TLA+ spec decides (isolation is decided at call-interleaving granularity)"),
+ "C06": ("§6 C06", "Gen!Framing states the property's framing table (verdict, offset, body per flags x declared Content-Length x available bytes); TLC enumerates messages with these framings and each is executed on the real parser and compared; pipelines of generated self-delimiting messages are parsed back to back with a Reset object and compared with each message alone.",
+         "bounded: Content-Length in {absent,0,2,3,4,12,13,600}, bodies of 0/3/12 bytes, all 8 flag sets, pipelines of depth 3-4"),
+ "C07": ("§6 C07", "TLC enumerates header blocks built from parts (names in several spellings and compact forms, WS before ':', values with SP/HT/folds, CRLF / lone CR / lone LF, empty values, repeated headers) together with the intended list (type by the documented table, name span, trimmed value span, count, type flags, first-of-type, stored prefix for small arrays); every block is executed on the real parser and compared on those keys.",
+         "bounded: 43 well-formed pool lines, <= 2 (quick) / 3 (thorough) per block; the intended reading is by construction of the text, no parsing on the oracle side"),
+ "C10": ("§6 C10", "for 209 boundary digit strings x 6 numeric positions TLA+ computes the decimal value in 192 bit limb arithmetic and states the demanded outcome (exact value, rejection, flag, saturation); every record is executed on the real code one-shot and cut inside the number.",
+         "the digit-string set is closed-form (neighbourhoods of the documented bounds, wrap residues, leading zeros, up to 40 digits), not all digit strings"),
  "C11": ("§6 C11", "every enumerated input of every parser family is parsed at offset 0 and at offsets k (junk before it) and the projections, shifted by exactly k, must be byte-identical; the Stream spec carries the start offset as configuration (cfg.start) and is model-checked for start in {0,3}.",
          "k from a fixed set incl. 65000 (near the 16 bit limit), not all k; inputs bounded by the atom enumeration"),
+ "C12": ("§6 C12", "histories Use(A, stop) . Reset | Init(same arrays) . Use(B) on real objects of every kind with a reset operation, A over generated messages / atom strings, stop at every suspension / completion / failure, B over probe inputs; observations compared with a newly created object (pristine arrays of the same capacities).",
+         "histories of length 2 (one reset); probes are a fixed small set per kind; reading 'same caller-supplied arrays' as arrays of the same capacities in pristine state"),
+ "C13": ("§6 C13", "CapacityIndependent: the observation of a run with small caller-supplied arrays equals the observation of the ample-capacity run truncated to those capacities (verdict, offset, counts, flags, first-of-type, values, expires summary, first/last contact; stored elements a prefix; More <=> dropped), over generated messages and atom strings, one-shot and chunked.",
+         "capacities 0..3 and built-in; successful parses only, as the property states"),
+ "C16": ("§6 C16", "TLC enumerates every letter-case variant of every table name, every byte string of length 0..3 over a 40 byte alphabet and every one-edit neighbour of every table name, checks hash-lookup = table-membership on the model and prints what the documented table says; every name is classified by the real functions and compared.",
+         "exhaustive over the stated name sets (>= 96k names); longer random names only through the header-block generator"),
 }
+TECHS = {"C06": GEN, "C07": GEN, "C10": GEN, "C16": GEN}
 props = [json.loads(l) for l in open(os.path.join(V, "properties.jsonl"))]
 commits = subprocess.run(["git", "-C", "/repo", "log", "--format=%h %s"], stdout=subprocess.PIPE, text=True).stdout.splitlines()
 hooks = [c.split()[0] for c in commits if " hook:" in c or c.split(" ", 1)[1].startswith("verif:")]
@@ -32,7 +48,7 @@ for p in props:
         m["checks"].append(dict(property_id=i, quick_cmd="bin/check %s --tier quick" % i, thorough_cmd="bin/check %s --tier thorough" % i,
                                 evidence_file="/verif/evidence/%s.json" % i, replay_cmd_template="bin/check %s --replay {path}" % i,
                                 engine="tlc+sipspv", level_claimed=dict(category="model_checking", text=text, design_ref=ref),
-                                level_note=note, technique=TECH))
+                                level_note=note, technique=TECHS.get(i, TECH)))
     else:
         m["not_applicable"].append(dict(property_id=i, reason="check not built yet in this round (planned: DESIGN.md §6 %s); the technique applies" % i))
 json.dump(m, open(os.path.join(V, "MANIFEST.json"), "w"), indent=1)
